@@ -69,6 +69,7 @@ def pool(rng, n):
 
 WRITE = "#!write "
 DELETE = "#!delete "
+CHDIR = "#!chdir "
 INC_MID = "name Mid\nversion 1.0\ninclude \"inc_leaf.xbb\"\n\nLeaf | 0\nH(0.5) | 1\n"
 INC_OK = ["name Sub\nversion 1.0\n\nG(1, 0.5) | 0\nH(0.25, k=[1, 2]) | [0, 1]\n",
           "name Sub\nversion 1.0\n\nG(2, 0.75) | 1\nH(0.5, k=[3]) | [1, 0]\nK | 0\n",
@@ -76,7 +77,10 @@ INC_OK = ["name Sub\nversion 1.0\n\nG(1, 0.5) | 0\nH(0.25, k=[1, 2]) | [0, 1]\n"
 
 
 def include_files():
-    files = {"inc_ok.xbb": INC_OK[0], "inc_mid.xbb": INC_MID}
+    files = {"inc_ok.xbb": INC_OK[0], "inc_mid.xbb": INC_MID,
+             # the same file name in two sub-directories: after the process changes directory, a relative include of
+             # a script given as text is looked up there
+             "d1/inc_ok.xbb": INC_OK[1], "d2/inc_ok.xbb": INC_OK[2]}
     for v in NAMES:
         files["inc_bad_%s.xbb" % v] = "name Inc%s\nversion 1.0\n\nfloat %s = 0.25\nfor int k in 1:3\n    G(k, undefined_inside) | k\n" % (v, v)
     return files
@@ -109,7 +113,13 @@ def o_history_in(texts, root):
     if os.path.exists(leaf):
         os.remove(leaf)
     version = {"inc_ok.xbb": INC_OK[0], "inc_leaf.xbb": None}
+    cwd = root
     for i, t in enumerate(texts):
+        if t.startswith(CHDIR):
+            d = t[len(CHDIR):]
+            cwd = root if d == "." else os.path.join(root, d)
+            os.chdir(cwd)
+            continue
         if t.startswith(WRITE):
             fn, content = t[len(WRITE):].split("\n", 1)
             with open(os.path.join(root, fn), "w", encoding="utf-8") as f:
@@ -123,10 +133,10 @@ def o_history_in(texts, root):
             version[fn] = None
             continue
         here, obj = oracles.outcome_here(t)
-        key = (root, t, version["inc_ok.xbb"] if "inc_ok.xbb" in t else None,
+        key = (cwd, t, (version["inc_ok.xbb"] if cwd == root else "static") if "inc_ok.xbb" in t else None,
                version["inc_leaf.xbb"] if "inc_mid.xbb" in t else None)
         if key not in _FRESH:
-            _FRESH[key] = oracles.fresh_request({"text": t, "cwd": root, "chdir": root})
+            _FRESH[key] = oracles.fresh_request({"text": t, "cwd": cwd, "chdir": cwd})
         fresh = _FRESH[key]
         if here != fresh:
             return "load %d of the history gives %s here but %s in a pristine process" % (
@@ -160,7 +170,7 @@ def replay(ctx, data):
 def run(ctx):
     ctx.rule = ("histories of 2-8 loads drawn from a pool of valid scripts, templates, scripts failing at each stage "
                 "(syntax, undefined name after a definition, inside a loop, inside an include, wrong mode type, "
-                "array type), scripts that include a file which other steps of the history rewrite on disk, scripts whose include has a nested include that other steps create and delete (missing file, then present), a script nested deeper than the default recursion limit, and scripts whose target/type options mention names, all over a small set of colliding "
+                "array type), scripts of the interaction stream (harness/interact.py: redeclarations, tdm type lines, arrays named p0), changes of the process's working directory between loads (a relative include is then looked up in the new directory), scripts that include a file which other steps of the history rewrite on disk, scripts whose include has a nested include that other steps create and delete (missing file, then present), a script nested deeper than the default recursion limit, and scripts whose target/type options mention names, all over a small set of colliding "
                 "variable and parameter names; each load's outcome (operations, parameters, variables, options, "
                 "serialisation, or error class with identifier and position) is compared with its outcome in a "
                 "forked child of a process that has never loaded anything; returned programs are scanned for shared "
@@ -168,6 +178,12 @@ def run(ctx):
                 "a failing load followed by a load that mentions a name the failing one defined; distinct by texts")
     n = ctx.n(300, 6000)
     pl = pool(ctx.rng, ctx.n(96, 600))
+    # scripts of the interaction stream (redeclarations, tdm headers with and without a type line, arrays named p0,
+    # loops): what one of them leaves behind must not reach the next
+    import interact
+    pl += [("interaction", interact.script(ctx.rng)) for _ in range(ctx.n(60, 400))]
+    # the process changes its working directory between loads
+    pl += [("chdir", CHDIR + d) for d in ("d1", "d2", ".", "d1", "d2")] * ctx.n(1, 6)
     lines = []
     hists = []
     root = oracles.write_tree(include_files())
@@ -187,7 +203,7 @@ def run(ctx):
         if msg:
             ctx.violation("history: " + msg, {"kind": "history", "texts": texts})
         if not any(k in ("fails-in-include", "valid-include", "rewrite-include", "include-with-nested-file",
-                         "create-nested-file", "delete-nested-file", "very-deep-nesting") for k in kinds):
+                         "create-nested-file", "delete-nested-file", "very-deep-nesting", "chdir") for k in kinds):
             lines.append(core.cmd("HIST", "/", *texts))
             hists.append(texts)
     shutil.rmtree(root, ignore_errors=True)
